@@ -133,9 +133,12 @@ theorem typing_lgL_failures : TypingAgreesUpToClass lgL 1000 classExprs := by de
 /-- … **but not with the same class of failure** (finding, see the notes): from `Base` in the built graph of `lgL`
 * `[Nope](zzz)`: the Python looks the subtype up *before* it tests the operand — `LanguageGraphException`; the
   hand model reports the untyped operand — step-expression error;
-* `zzz.access`, `zzz.hosts`, `[Leaf](apps)`: the Python returns `(None, None, …)` and goes on with the target
-  `None`; the hand model raises at once;
-* `zzz \/ hosts`, `zzz.v`: the Python fails with `AttributeError` on `None` (here `PyErr.other`). -/
+* `zzz.access`, `zzz.hosts`: the Python returns `(None, None, …)` and goes on with the target `None`; the hand
+  model raises at once;
+* `zzz \/ hosts`, `zzz.v`: the Python fails with `AttributeError` on `None` (here `PyErr.other`);
+* `[Leaf](apps)` (`apps` is not a field of `Base`, the operand is untyped): `is_subasset_of(None)` is `False` and the
+  argument `result_target_asset.name` of the `logger.error` call that follows raises `AttributeError` (the translator
+  emits the implicit `None` check of a dropped logging call's arguments, `genexec2` finding). -/
 theorem typing_class_differs :
     (match runBuild lgL, generate lgL with
      | .ok s, .ok g => classExprs.map (fun e => (typeRun s 1000 "Base" e, typeModel lgL g.assocs (genFuel lgL) "Base" e))
@@ -143,7 +146,7 @@ theorem typing_class_differs :
     [(.error errLanguageGraph, .error errStepExpression), (.ok none, .error errStepExpression),
      (.ok none, .error errStepExpression), (.error .other, .error errStepExpression),
      (.error .other, .error errStepExpression), (.error .other, .error errStepExpression),
-     (.error .other, .error errStepExpression), (.ok none, .error errStepExpression),
+     (.error .other, .error errStepExpression), (.error .other, .error errStepExpression),
      (.error .other, .error errStepExpression)] := by decide
 
 /-- consequence for `_generate_graph`: a reaches expression with a set operation over an operand without target
